@@ -149,6 +149,31 @@ def evalInt (op : String) (t1 t2 : ITy) (nd1 nd2 : Int × Int) (b : Int) : Optio
       (fmtE id m, join [sI (Spec.tpPlus p q a b), sI (Spec.tpPlus p q a b)])
   | "tp_minus" => let k := pairCtx d1 d2; one (withCtx k (tpMinusCore · · b)) (Spec.tpMinus p q · b)
   | "tp_diff" => let k := pairCtx d1 d2; one (withCtx k (tpDiffCore · · b)) (Spec.tpDiff p q · b)
+  -- compound assignment with a duration of another type: `D1 x{a}; x += D2{b}` ; `x -= D2{b}` (`tp_adda2`: the same members of
+  -- `time_point<Clock, D1>`); `n/a` when `D2` does not convert implicitly to `D1`
+  | "adda2" | "tp_adda2" =>
+    let k := assign2Ctx d1 d2
+    let conv := (q / p).den == 1
+    let e := Spec.floor q p b            -- exact: `b` ticks of `q` are `b * (q / p)` ticks of `p`
+    some fun a =>
+      let m : Except Err String := do
+        let k ← k
+        let x ← addAssign2Core k d1 a b
+        let y ← subAssign2Core k d1 a b
+        .ok (join [sI x, sI y])
+      let ms := match m with
+        | .ok r => r
+        | .error er => if notConvertible er then "n/a" else er.fmt
+      (ms, if conv then join [sI (a + e), sI (a - e)] else "n/a")
+  | "moda2" =>
+    let k := assign2Ctx d1 d2
+    let conv := (q / p).den == 1
+    let e := Spec.floor q p b
+    some fun a =>
+      let ms := match withCtx k (modAssign2Core · d1 · b) a with
+        | .ok r => sI r
+        | .error er => if notConvertible er then "n/a" else er.fmt
+      (ms, if conv then sI (Spec.modRep p a e) else "n/a")
   | _ => none
 
 /-- one-type operations, integer representation -/
